@@ -2589,3 +2589,206 @@ def _uses_leaf(e):
 
 
 E.register(C17())
+
+
+# ---------------------------------------------------------------------------------------
+def is_probable_prime(n, rounds=24):
+    if n < 2:
+        return False
+    for q in (2, 3, 5, 7, 11, 13, 17, 19, 23, 29, 31, 37):
+        if n % q == 0:
+            return n == q
+    d, r = n - 1, 0
+    while d % 2 == 0:
+        d //= 2
+        r += 1
+    rng = _random.Random(n & 0xffffffff)
+    for _ in range(rounds):
+        a = rng.randrange(2, n - 1)
+        x = pow(a, d, n)
+        if x in (1, n - 1):
+            continue
+        for _ in range(r - 1):
+            x = x * x % n
+            if x == n - 1:
+                break
+        else:
+            return False
+    return True
+
+
+def import_backend_module(name):
+    """Fresh import of one backend module (not through the runtime) in a private scratch cwd."""
+    W.ensure_paths(name.startswith("zk"))
+    W.purge_pysnark()
+    os.environ["PYSNARK_BACKEND"] = name
+    os.environ["QAPTOOLS_BIN"] = os.path.join(W.STUBS, "qaptools-bin")
+    import atexit
+    import importlib
+    real = atexit.register
+    saved = (sys.exit, sys.excepthook)
+    atexit.register = lambda f, *a, **k: f
+    try:
+        return importlib.import_module(W.BACKEND_MODULES[name])
+    finally:
+        atexit.register = real
+        sys.exit, sys.excepthook = saved
+
+
+import sys
+
+
+class C13(TraceCheck):
+    name = "C13"
+    prop = "C13"
+    props = ()
+    budget = {"quick": 2500, "thorough": 100000}
+    BACKENDS = ("snarkjs", "zkinterface", "zkifbellman", "zkifbulletproofs", "qaptools")
+    components = ("real: the LinearCombination / Sig classes, privval/pubval/one/zero, get_modulus and fieldinverse "
+                  "of pysnark/snarkjsbackend.py, pysnark/zkinterface/backend*.py, pysnark/qaptools/backend.py and "
+                  "the pure-Python pysnark/gmpy.py, imported fresh per run; stubs: `flatbuffers` (import only), "
+                  "qapgen executable (import-time existence test only); not covered: gmpy2's invert (package "
+                  "absent), libsnark's C++ linear combinations")
+    rule = ("operation histories over a shared pool of linear combinations driven directly against each backend's "
+            "own class: the pool starts with variables, the constant one, zero; each step applies + - neg or "
+            "x scalar (scalars 0, 1, -1, small, negative, p-1, p, p+1, 2^256+k) to pool members (including a "
+            "member with itself) and adds the result; after every step EVERY pool member is compared with a "
+            "coefficient-vector model (so an operation that alters an operand, or an alias that later changes, is "
+            "seen) and evaluated on a seeded assignment; once per run the reported modulus must equal the "
+            "hard-coded scalar-field order for the backend name and pass Miller-Rabin, and fieldinverse(x)*x == 1 "
+            "for seeded non-zero x including negative and unreduced ones. non-trivial = distinct (backend, "
+            "history) with at least 3 operations")
+
+    def gen(self, rng, i, tier):
+        backend = self.BACKENDS[i % len(self.BACKENDS)]
+        p = W.PRIMES[backend]
+        nvars = rng.randrange(1, 5)
+        ops = []
+        for _ in range(rng.randrange(3, 25)):
+            k = rng.choice(["add", "add", "sub", "neg", "mul", "mul"])
+            a = rng.randrange(0, 64)
+            b = a if rng.random() < 0.15 else rng.randrange(0, 64)
+            sc = rng.choice([0, 1, -1, 2, 3, -7, 12345, p - 1, p, p + 1, -p, (1 << 256) + 5, rng.randrange(p)])
+            ops.append([k, a, b, sc])
+        vals = [rng.choice([0, 1, -1, 5, p - 1, rng.randrange(p)]) for _ in range(nvars)]
+        xs = [rng.choice([1, 2, -1, -2, p - 1, p + 1, 2 * p + 3, -p + 1, rng.randrange(1, p), -rng.randrange(1, p),
+                          (1 << 300) + 7]) for _ in range(6)]
+        return {"backend": backend, "vals": vals, "kinds": [rng.choice(["priv", "pub"]) for _ in vals],
+                "ops": ops, "inv": xs}
+
+    def run(self, case):
+        name = case["backend"]
+        p = W.PRIMES[name]
+        d = tempfile.mkdtemp(prefix="c13-")
+        old = os.getcwd()
+        os.chdir(d)
+        viol = []
+
+        def add(oracle, site, detail):
+            s = dict(site, backend=name)
+            if not any(v["oracle"] == oracle and v["site"] == s for v in viol):
+                viol.append({"property": "C13", "oracle": oracle, "site": s, "detail": detail})
+        try:
+            b = import_backend_module(name)
+            if name == "qaptools":
+                def coeffs(lc):
+                    out = {}
+                    for c, v in lc.sig:
+                        out[v] = (out.get(v, 0) + c) % p
+                    return {k: c for k, c in out.items() if c}
+            else:
+                def coeffs(lc):
+                    return {k: c % p for k, c in lc.lc.items() if c % p}
+            pool, model, assign = [], [], {}
+            one = b.one()
+            (ok, ov), = coeffs(one).items()
+            assign[ok] = 1
+            pool.append(one)
+            model.append({ok: 1})
+            pool.append(b.zero())
+            model.append({})
+            for v, kind in zip(case["vals"], case["kinds"]):
+                lc = (b.privval if kind == "priv" else b.pubval)(v)
+                (k, c), = coeffs(lc).items()
+                assign[k] = v % p
+                pool.append(lc)
+                model.append({k: 1})
+            # modulus and inverse
+            m = b.get_modulus()
+            if m != p:
+                add("wrong_modulus", {}, "get_modulus() = %d, scalar-field order of %s is %d" % (m, name, p))
+            elif not is_probable_prime(m):
+                add("wrong_modulus", {"why": "composite"}, "reported modulus is not prime")
+            for x in case["inv"]:
+                if x % p == 0:
+                    continue
+                try:
+                    y = b.fieldinverse(x)
+                except Exception as e:
+                    add("inverse_wrong", {"x": "neg" if x < 0 else ("unreduced" if x >= p else "reduced")},
+                        "fieldinverse(%d) raised %s" % (x, type(e).__name__))
+                    continue
+                if (y * x) % p != 1:
+                    add("inverse_wrong", {"x": "neg" if x < 0 else ("unreduced" if x >= p else "reduced")},
+                        "fieldinverse(%d) * %d != 1 mod p" % (x, x))
+            nops = 0
+            for k, ai, bi, sc in case["ops"]:
+                a, bb = ai % len(pool), bi % len(pool)
+                if k == "add":
+                    r = pool[a] + pool[bb]
+                    mr = dict(model[a])
+                    for kk, c in model[bb].items():
+                        mr[kk] = (mr.get(kk, 0) + c) % p
+                elif k == "sub":
+                    r = pool[a] - pool[bb]
+                    mr = dict(model[a])
+                    for kk, c in model[bb].items():
+                        mr[kk] = (mr.get(kk, 0) - c) % p
+                elif k == "neg":
+                    r = -pool[a]
+                    mr = {kk: (-c) % p for kk, c in model[a].items()}
+                else:
+                    r = pool[a] * sc
+                    mr = {kk: (c * sc) % p for kk, c in model[a].items()}
+                mr = {kk: c for kk, c in mr.items() if c}
+                pool.append(r)
+                model.append(mr)
+                nops += 1
+                for j, (lc, mm) in enumerate(zip(pool, model)):
+                    got = coeffs(lc)
+                    if got != mm:
+                        which = "result" if j == len(pool) - 1 else "operand_or_older_member"
+                        ev_g = sum(c * assign[kk] for kk, c in got.items()) % p
+                        ev_m = sum(c * assign[kk] for kk, c in mm.items()) % p
+                        add("algebra_wrong" if which == "result" else "operand_mutated", {"op": k, "which": which},
+                            "after %s: pool member %d evaluates to %d, model %d" % (k, j, ev_g, ev_m))
+                        break
+                if viol:
+                    break
+        finally:
+            os.chdir(old)
+            shutil.rmtree(d, ignore_errors=True)
+        return {"violations": viol, "digest": E.sha((name, [sorted((str(k), c) for k, c in m.items()) for m in model],
+                                                     [v["detail"] for v in viol])),
+                "nontrivial": E.sha((name, case["ops"])) if nops >= 3 else None, "events": nops + len(case["inv"]),
+                "faults": {}, "probes": {"backend_" + name: 1, "self_operand": sum(1 for o in case["ops"] if o[1] == o[2])},
+                "sigs": [E.sha((name, o[0])) for o in case["ops"]], "outcome": "completed"}
+
+    def shrink_candidates(self, case):
+        for i in reversed(range(len(case["ops"]))):
+            c = copy.deepcopy(case)
+            del c["ops"][i]
+            yield c
+        if len(case["inv"]) > 1:
+            for i in range(len(case["inv"])):
+                c = copy.deepcopy(case)
+                c["inv"] = [case["inv"][i]]
+                yield c
+        if len(case["vals"]) > 1:
+            c = copy.deepcopy(case)
+            c["vals"].pop()
+            c["kinds"].pop()
+            yield c
+
+
+E.register(C13())
